@@ -101,6 +101,19 @@ fn unary_cases() -> &'static Vec<String> {
                 }
             }
         }
+        // ... and one exact Integer step on top for the operands at the edge of i64 and of 2^53: an Integer kept where a
+        // Float is due (or the reverse) is numerically invisible until the next operation rounds or does not
+        let edge = [i64_expr(i64::MIN), i64_expr(i64::MAX), i64_expr(-i64::MAX), "9007199254740993".to_string(), "(-9007199254740993)".to_string(), "4611686018427387904".to_string(), "9223372036854775808.0".to_string(), "(-9223372036854775808.0)".to_string()];
+        for a in &edge {
+            for f in forms {
+                for g in forms {
+                    let inner = f.replace("{}", &g.replace("{}", a));
+                    for tail in ["+1", "-1", "%10", "*3", "/3"] {
+                        v.push(format!("{}{}", inner, tail));
+                    }
+                }
+            }
+        }
         v
     })
 }
@@ -124,7 +137,7 @@ impl Prop for C09Prop {
         "C09"
     }
     fn rule(&self) -> String {
-        "Well-formed eval_number expressions over + - * / % ^ pow mod, unary minus, abs sgn, floor ceil round trunc (and ⌊⌋ ⌈⌉), superscripts, n!. Exhaustive: every binary operator x (Integer pool ∪ Float pool ∪ NaN/inf ∪ @ with every placeholder)^2, every unary/rounding form x pool ∪ {k+0.5, k+-0.4, k.49999999999999994 : k=-3..3}, n! for n=0..25, every composition of two unary forms (13 x 13) x pool; long chains of 2..512 operands (i64::MAX+1+0+…+(-2): an intermediate overflow must turn the sum into a Float for good; 1e16+1.0+1.0…); random typed trees of depth <=5 beyond. Oracle: typed reference evaluator implementing C09 literally (Integer steps in i128; fits => Integer(exact), variant and value asserted; otherwise Float of the double operation; any Float operand => numeric value of the IEEE operation; rounding functions => numeric value of the rounded integer; Integer exponents outside 0..2^32-1 unspecified). non-trivial = the reference result is a Float/numeric value, or has magnitude >= 2^53, or the input uses a rounding function on a Float; distinct by (input, placeholder).".into()
+        "Well-formed eval_number expressions over + - * / % ^ pow mod, unary minus, abs sgn, floor ceil round trunc (and ⌊⌋ ⌈⌉), superscripts, n!. Exhaustive: every binary operator x (Integer pool ∪ Float pool ∪ NaN/inf ∪ @ with every placeholder)^2, every unary/rounding form x pool ∪ {k+0.5, k+-0.4, k.49999999999999994 : k=-3..3}, n! for n=0..25, every composition of two unary forms (13 x 13) x pool, and for the operands at the edge of i64 / 2^53 one more Integer step (+1, -1, %10, *3, /3) on top; long chains of 2..512 operands (i64::MAX+1+0+…+(-2): an intermediate overflow must turn the sum into a Float for good; 1e16+1.0+1.0…); random typed trees of depth <=5 beyond. Oracle: typed reference evaluator implementing C09 literally (Integer steps in i128; fits => Integer(exact), variant and value asserted; otherwise Float of the double operation; any Float operand => numeric value of the IEEE operation; rounding functions => numeric value of the rounded integer; Integer exponents outside 0..2^32-1 unspecified). non-trivial = the reference result is a Float/numeric value, or has magnitude >= 2^53, or the input uses a rounding function on a Float; distinct by (input, placeholder).".into()
     }
     fn subs(&self, tier: Tier) -> Vec<Sub> {
         vec![
